@@ -280,6 +280,12 @@ fn emit(out: &mut Out, kind: &str, route: u64, n: usize, vals: &[usize], lv: &Le
             return 0;
         }
     }
+    emit_full(out, kind, route, n, vals, None, None, lv, rng)
+}
+
+// `runs`: the value list in run notation (long lists are written that way into the case file);
+// `planner`: chooses the questions from the built vector's layout instead of the sampling in `queries`
+fn emit_full(out: &mut Out, kind: &str, route: u64, n: usize, vals: &[usize], runs: Option<&Runs>, planner: Option<&dyn Fn(&[u64], usize, &mut Out) -> Plan>, lv: &Level, rng: &mut Rng) -> usize {
     let r = build(route, n, vals);
     let mut w = 0usize;
     let (built, qs) = match &r {
@@ -290,7 +296,20 @@ fn emit(out: &mut Out, kind: &str, route: u64, n: usize, vals: &[usize], lv: &Le
             };
             w = if ser.is_empty() { 0 } else { width_of(&ser) as usize };
             out.stat(&format!("width.{:02}", w));
-            let q = queries(sv, vals, std::cmp::min(w, 63), lv, rng, out);
+            let q = match planner {
+                Some(f) if !ser.is_empty() => {
+                    // (a serialized form the layout cannot be read from must not stop the harness)
+                    let plan = match catch(|| f(&ser, w, &mut *out)) {
+                        Res::Ok(p) => p,
+                        Res::Panic(_, _) => {
+                            out.stat("longsb.plan.layout_not_readable");
+                            Plan { idx: extremes(n).into_iter().map(|i| (i, true, true, 1, 1)).collect(), ranks: extremes(vals.len()).into_iter().map(|r| (r, 1)).collect(), zranks: Vec::new(), is_multi: false }
+                        }
+                    };
+                    ask_plan(sv, &plan, out)
+                }
+                _ => queries(sv, vals, std::cmp::min(w, 63), lv, rng, out),
+            };
             (format!("(IOk (inl {}))", nlist(&ser)), q)
         }
         Res::Ok(Err(code)) => {
@@ -305,10 +324,15 @@ fn emit(out: &mut Out, kind: &str, route: u64, n: usize, vals: &[usize], lv: &Le
         }
     };
     let mut term = String::new();
-    let _ = write!(term, "CSV {} {} {} {} {} {} {} {}", PATH, b(DBG), route, n, ulist(vals), w, built, qs);
-    let shown: Vec<usize> = if vals.len() <= 200 { vals.to_vec() } else { vals[..200].to_vec() };
-    let json = format!("{{\"route\":{},\"n\":{},\"m\":{},\"w\":{},\"vals\":{:?},\"built\":{:?}}}", route, n, vals.len(), w, shown,
-        match &r { Res::Ok(Ok(_)) => "ok".to_string(), Res::Ok(Err(c)) => format!("err {}", c), Res::Panic(k, msg) => format!("panic {} {}", k, msg) });
+    let vterm = match runs { Some(rs) => runs_term(rs), None => ulist(vals) };
+    let _ = write!(term, "CSV {} {} {} {} {} {} {} {}", PATH, b(DBG), route, n, vterm, w, built, qs);
+    let shown: Vec<usize> = if runs.is_some() { vals[..std::cmp::min(vals.len(), 8)].to_vec() } else if vals.len() <= 200 { vals.to_vec() } else { vals[..200].to_vec() };
+    let rj = match runs {
+        Some(rs) => format!(",\"runs_start_count_step\":[{}]", rs.iter().map(|(s, c, st)| format!("[{},{},{}]", s, c, st)).collect::<Vec<String>>().join(",")),
+        None => String::new(),
+    };
+    let json = format!("{{\"route\":{},\"n\":{},\"m\":{},\"w\":{},\"vals\":{:?},\"built\":{:?}{}}}", route, n, vals.len(), w, shown,
+        match &r { Res::Ok(Ok(_)) => "ok".to_string(), Res::Ok(Err(c)) => format!("err {}", c), Res::Panic(k, msg) => format!("panic {} {}", k, msg) }, rj);
     out.stat(&format!("route.{}", route));
     out.case(kind, term, json, !vals.is_empty());
     w
@@ -754,12 +778,628 @@ fn run_multisets(rng: &mut Rng, out: &mut Out, thorough: bool) {
     }
 }
 
+
+// ---------------------------------------------------------------- long superblocks in the select supports of `high`
+//
+// `SelectSupport::new` stores a superblock of 4096 ones (select) or zeros (select_zero) of `high` as LONG (every
+// position explicitly) when it spans at least bit_len(high.len())^4 positions: 17^4 = 83521 for high.len() < 2^17,
+// 18^4 = 104976 below 2^18, 19^4 = 130321 below 2^19. With high.len() = values + buckets and at most ~2.04 buckets
+// per value this needs 40 000 .. 250 000 strongly clustered values, so the vectors below are written as runs
+// and the questions are chosen from the layout (a scan of the list-based model costs about a millisecond per
+// position of `high` it walks over).
+
+// (start, count, step): start, start + step, ... (count values)
+type Runs = Vec<(usize, usize, usize)>;
+
+fn expand_runs(rs: &Runs) -> Vec<usize> {
+    let mut v = Vec::new();
+    for (s, c, st) in rs.iter() {
+        for i in 0..*c {
+            v.push(s + i * st);
+        }
+    }
+    v
+}
+fn runs_term(rs: &Runs) -> String {
+    let items: Vec<String> = rs.iter().map(|(s, c, st)| format!("({}, {}, {})", nu(*s), nu(*c), nu(*st))).collect();
+    format!("(expand [{}])", items.join("; "))
+}
+
+// one select support as serialized: per superblock (first position, index into long / short, is_short)
+struct Sup {
+    sb: Vec<(usize, usize, bool)>,
+    long_len: usize,
+    short_len: usize,
+}
+impl Sup {
+    fn long_at(&self, rank: usize) -> Option<(usize, usize, usize)> {
+        // (first position, index into long, offset inside the superblock) when `rank` lies in a long superblock
+        let k = rank / 4096;
+        if k < self.sb.len() && !self.sb[k].2 { Some((self.sb[k].0, self.sb[k].1, rank % 4096)) } else { None }
+    }
+    fn n_long(&self) -> usize {
+        self.sb.iter().filter(|x| !x.2).count()
+    }
+    fn first_long_not_at_0(&self) -> bool {
+        !self.sb.is_empty() && !self.sb[0].2 && self.sb[0].0 > 0
+    }
+    fn long_after_short(&self) -> bool {
+        (1..self.sb.len()).any(|i| !self.sb[i].2 && self.sb[i - 1].2)
+    }
+    fn two_long_in_row(&self) -> bool {
+        (1..self.sb.len()).any(|i| !self.sb[i].2 && !self.sb[i - 1].2)
+    }
+}
+
+fn take_intvec(ser: &[u64], p: &mut usize) -> Vec<u64> {
+    let len = ser[*p] as usize;
+    let width = ser[*p + 1] as usize;
+    let nwords = ser[*p + 3] as usize;
+    let words = &ser[*p + 4..*p + 4 + nwords];
+    *p += 4 + nwords;
+    (0..len)
+        .map(|i| {
+            let bo = i * width;
+            let (wi, off) = (bo / 64, bo % 64);
+            let mut x = words[wi] >> off;
+            if off + width > 64 {
+                x |= words[wi + 1] << (64 - off);
+            }
+            if width < 64 { x & ((1u64 << width) - 1) } else { x }
+        })
+        .collect()
+}
+fn take_sup(ser: &[u64], p: &mut usize) -> Option<Sup> {
+    let sz = ser[*p] as usize;
+    *p += 1;
+    if sz == 0 {
+        return None;
+    }
+    let end = *p + sz;
+    let samples = take_intvec(ser, p);
+    let long = take_intvec(ser, p);
+    let short = take_intvec(ser, p);
+    *p = end;
+    let sb = (0..samples.len() / 2).map(|k| (samples[2 * k] as usize, (samples[2 * k + 1] / 2) as usize, samples[2 * k + 1] & 1 == 1)).collect();
+    Some(Sup { sb, long_len: long.len(), short_len: short.len() })
+}
+// (high.len(), select support, select_zero support) of the serialized sparse vector
+fn parse_high(ser: &[u64]) -> (usize, Option<Sup>, Option<Sup>) {
+    let hlen = ser[2] as usize;
+    let nwords = ser[3] as usize;
+    let mut p = 4 + nwords;
+    let rank_sz = ser[p] as usize;
+    p += 1 + rank_sz;
+    let one = take_sup(ser, &mut p);
+    let zero = take_sup(ser, &mut p);
+    (hlen, one, zero)
+}
+
+// explicit questions. idx: (argument, get?, rank + rank_zero?, items from predecessor (0 = do not ask), items from successor)
+#[derive(Default)]
+struct Plan {
+    idx: Vec<(usize, bool, bool, usize, usize)>,
+    ranks: Vec<(usize, usize)>,  // (select argument, items from select_iter)
+    zranks: Vec<(usize, usize)>, // (select_zero argument, items from select_zero_iter)
+    is_multi: bool,
+}
+
+fn ask_plan(sv: &SparseVector, plan: &Plan, out: &mut Out) -> String {
+    let (n, m, z) = (sv.len(), sv.count_ones(), sv.count_zeros());
+    let mut qs: Vec<String> = Vec::new();
+    qs.push(format!("QLens {} {} {}", n, m, z));
+    if plan.is_multi {
+        qs.push(format!("QIsMulti {}", ires(&catch(|| sv.is_multiset()), |x| b(*x))));
+    }
+    for (i, get, rank, kp, ks) in plan.idx.iter().cloned() {
+        if get && i < n {
+            qs.push(format!("QGet {} {}", nu(i), ires(&catch(|| sv.get(i)), |x| b(*x))));
+        }
+        if rank {
+            qs.push(format!("QRank {} {}", nu(i), ires(&catch(|| sv.rank(i)), |x| nu(*x))));
+            if i <= n {
+                qs.push(format!("QRank0 {} {}", nu(i), ires(&catch(|| sv.rank_zero(i)), |x| nu(*x))));
+            }
+        }
+        if kp > 0 {
+            qs.push(format!("QPred {} {} {}", nu(i), kp, ires(&catch(|| sv.predecessor(i).take(kp).collect::<Vec<(usize, usize)>>()), |x| plist(x))));
+        }
+        if ks > 0 {
+            qs.push(format!("QSucc {} {} {}", nu(i), ks, ires(&catch(|| sv.successor(i).take(ks).collect::<Vec<(usize, usize)>>()), |x| plist(x))));
+        }
+    }
+    for (r, k) in plan.ranks.iter().cloned() {
+        qs.push(format!("QSel {} {}", nu(r), ires(&catch(|| sv.select(r)), |x| opt(x, |y| nu(*y)))));
+        if k > 0 {
+            qs.push(format!("QSelIter {} {} {}", nu(r), k, ires(&catch(|| sv.select_iter(r).take(k).collect::<Vec<(usize, usize)>>()), |x| plist(x))));
+        }
+    }
+    for (r, k) in plan.zranks.iter().cloned() {
+        qs.push(format!("QSel0 {} {}", nu(r), ires(&catch(|| sv.select_zero(r)), |x| opt(x, |y| nu(*y)))));
+        if k > 0 {
+            qs.push(format!("QSel0Iter {} {} {}", nu(r), k, ires(&catch(|| sv.select_zero_iter(r).take(k).collect::<Vec<(usize, usize)>>()), |x| plist(x))));
+        }
+    }
+    out.stat_n("queries.index_args", plan.idx.len() as u64);
+    out.stat_n("queries.rank_args", (plan.ranks.len() + plan.zranks.len()) as u64);
+    format!("[{}]", qs.join("; "))
+}
+
+// the layout of `high` for a sorted value list: how many positions of `high` (or values of a bucket) a query walks
+// over one at a time. The list-based model pays about a millisecond per step on these vectors, so the planner
+// asks only what stays below LIMIT steps.
+struct Lay<'a> {
+    vals: &'a [usize],
+    w: usize,
+    n: usize,
+    hlen: usize,
+}
+const LIMIT: usize = 260;
+impl<'a> Lay<'a> {
+    fn m(&self) -> usize {
+        self.vals.len()
+    }
+    fn lb(&self, x: usize) -> usize {
+        self.vals.partition_point(|v| *v < x)
+    }
+    fn ub(&self, x: usize) -> usize {
+        self.vals.partition_point(|v| *v <= x)
+    }
+    fn onepos(&self, i: usize) -> usize {
+        (self.vals[i] >> self.w) + i
+    }
+    // ranks of the values of bucket hp: [lo, hi)
+    fn bucket(&self, hp: usize) -> (usize, usize) {
+        let lo = ((hp as u128) << self.w).min(usize::MAX as u128) as usize;
+        let hi = (((hp as u128) + 1) << self.w).min(usize::MAX as u128) as usize;
+        (self.lb(lo), self.lb(hi))
+    }
+    fn take_cost(&self, r: usize, k: usize) -> usize {
+        if k <= 1 || r >= self.m() { 0 } else { self.onepos(std::cmp::min(r + k - 1, self.m() - 1)) - self.onepos(r) }
+    }
+    fn cost_get(&self, i: usize) -> usize {
+        let (lo, _) = self.bucket(i >> self.w);
+        self.lb(i) - lo
+    }
+    fn cost_rank(&self, i: usize) -> usize {
+        if i >= self.n {
+            return 0;
+        }
+        let (_, hi) = self.bucket(i >> self.w);
+        hi - self.lb(i)
+    }
+    fn cost_pred(&self, i: usize, k: usize) -> usize {
+        if self.n == 0 {
+            return 0;
+        }
+        let i = std::cmp::min(i, self.n - 1);
+        let hp = i >> self.w;
+        let (_, hi) = self.bucket(hp);
+        let u = self.ub(i);
+        if u == 0 {
+            return hi;
+        }
+        (hp + hi) - self.onepos(u - 1) + self.take_cost(u - 1, k)
+    }
+    fn cost_succ(&self, i: usize, k: usize) -> usize {
+        if i >= self.n {
+            return 0;
+        }
+        let hp = i >> self.w;
+        let (lo, _) = self.bucket(hp);
+        let r = self.lb(i);
+        if r == self.m() { self.hlen - (hp + lo) } else { self.onepos(r) - (hp + lo) + self.take_cost(r, k) }
+    }
+    // select on `high` inside a short superblock walks word by word from the block sample
+    fn cost_select(&self, sup: &Sup, r: usize, k: usize) -> usize {
+        if r >= self.m() {
+            return 0;
+        }
+        let c = if sup.long_at(r).is_some() { 0 } else { (self.onepos(r) - self.onepos(r - (r % 4096) % 64)) / 64 };
+        c + self.take_cost(r, k)
+    }
+    // select_zero of the vector (sets): the run search ends with a scan over at most 17 values around the answer
+    fn cost_sel0(&self, rz: usize) -> usize {
+        let m = self.m();
+        if m == 0 || rz >= self.n.saturating_sub(m) {
+            return 0;
+        }
+        // number of values before the unset bit of rank rz
+        let (mut lo, mut hi) = (0usize, m);
+        while lo < hi {
+            let mid = lo + (hi - lo) / 2;
+            if self.vals[mid].wrapping_sub(mid) <= rz { lo = mid + 1 } else { hi = mid }
+        }
+        self.onepos(std::cmp::min(lo + 1, m - 1)) - self.onepos(lo.saturating_sub(18))
+    }
+}
+
+// what a directed case wants to be asked: ranks of values (select side) and buckets (select_zero side of `high`)
+struct Wish {
+    ranks: Vec<usize>,
+    buckets: Vec<usize>,
+    cap_idx: usize,
+    cap_ranks: usize,
+    cap_zranks: usize,
+}
+
+fn make_plan(vals: &[usize], n: usize, multiset: bool, wish: &Wish, ser: &[u64], w: usize, out: &mut Out, tag: &str) -> Plan {
+    let (hlen, one, zero) = parse_high(ser);
+    let lay = Lay { vals, w, n, hlen };
+    let m = vals.len();
+    let z = n.saturating_sub(m);
+    let empty = Sup { sb: Vec::new(), long_len: 0, short_len: 0 };
+    let one = one.unwrap_or(Sup { sb: Vec::new(), long_len: 0, short_len: 0 });
+    let zero = zero.unwrap_or(empty);
+    // which regimes did the crate's construction reach
+    for (name, sup) in [("ones", &one), ("zeros", &zero)] {
+        out.stat_n(&format!("longsb.{}.{}.long_superblocks", tag, name), sup.n_long() as u64);
+        out.stat_n(&format!("longsb.{}.{}.long_entries", tag, name), sup.long_len as u64);
+        if sup.first_long_not_at_0() {
+            out.stat(&format!("longsb.regime.{}.first_superblock_long_not_at_0", name));
+        }
+        if sup.long_after_short() {
+            out.stat(&format!("longsb.regime.{}.long_after_short", name));
+        }
+        if sup.two_long_in_row() {
+            out.stat(&format!("longsb.regime.{}.two_long_in_a_row", name));
+        }
+    }
+    let mut plan = Plan::default();
+    // QIsMulti walks over the values up to the first repetition
+    let first_dup = (1..std::cmp::min(m, 400)).find(|i| vals[*i] == vals[*i - 1]);
+    plan.is_multi = m <= 3000 || first_dup.is_some();
+
+    // index arguments: the extremes, then around the wished values and buckets
+    let mut cands: Vec<usize> = extremes(n);
+    let bucket = 1usize << w;
+    for hp in wish.buckets.iter().cloned() {
+        let base = hp << w;
+        let (lo, hi) = lay.bucket(hp);
+        cands.push(base);
+        if lo < hi {
+            cands.push(vals[lo]);
+            cands.push(vals[hi - 1]);
+            cands.push(vals[hi - 1].wrapping_add(1));
+        }
+        cands.push(base.wrapping_add(bucket - 1));
+        cands.push(base.wrapping_sub(1));
+    }
+    for r in wish.ranks.iter().cloned() {
+        if r < m {
+            cands.push(vals[r]);
+            cands.push(vals[r].wrapping_add(1));
+            cands.push(vals[r].wrapping_sub(1));
+        }
+    }
+    let mut seen: BTreeSet<usize> = BTreeSet::new();
+    let mut n_keep = 0usize;
+    for (ci, i) in cands.iter().cloned().enumerate() {
+        if !seen.insert(i) {
+            continue;
+        }
+        let is_extreme = ci < 8;
+        if !is_extreme && n_keep >= wish.cap_idx {
+            out.stat("longsb.plan.index_args_over_cap");
+            continue;
+        }
+        let get = i < n && lay.cost_get(i) <= LIMIT;
+        let rank = lay.cost_rank(i) <= LIMIT;
+        let kp = if lay.cost_pred(i, 2) <= LIMIT { 2 } else if lay.cost_pred(i, 1) <= LIMIT { 1 } else { 0 };
+        let ks = if lay.cost_succ(i, 2) <= LIMIT { 2 } else if lay.cost_succ(i, 1) <= LIMIT { 1 } else { 0 };
+        for (asked, what) in [(get || i >= n, "get"), (rank, "rank"), (kp > 0, "pred"), (ks > 0, "succ")] {
+            if !asked {
+                out.stat(&format!("longsb.plan.too_long_a_scan_for_the_model.{}", what));
+            }
+        }
+        if !(get || rank || kp > 0 || ks > 0) {
+            continue;
+        }
+        if !is_extreme {
+            n_keep += 1;
+        }
+        // which superblocks of the select_zero support do lower_bound / upper_bound read
+        if i < n {
+            let hp = i >> w;
+            let mut args: Vec<usize> = Vec::new();
+            if (get || ks > 0) && hp > 0 {
+                args.push(hp - 1);
+            }
+            if rank || kp > 0 {
+                args.push(hp);
+            }
+            for a in args {
+                if let Some((start, idx, off)) = zero.long_at(a) {
+                    out.stat("longsb.asked.zeros.in_long_superblock");
+                    if off != 0 && start != 0 {
+                        out.stat("longsb.asked.zeros.long_not_at_0_offset_nonzero");
+                    }
+                    if off != 0 && idx != 0 {
+                        out.stat("longsb.asked.zeros.second_or_later_long_offset_nonzero");
+                    }
+                }
+            }
+        }
+        plan.idx.push((i, get, rank, kp, ks));
+    }
+
+    // select arguments
+    let mut cands: Vec<usize> = extremes(m);
+    cands.extend(wish.ranks.iter().cloned());
+    let mut seen: BTreeSet<usize> = BTreeSet::new();
+    let mut n_keep = 0usize;
+    for (ci, r) in cands.iter().cloned().enumerate() {
+        if !seen.insert(r) {
+            continue;
+        }
+        if ci >= 8 && n_keep >= wish.cap_ranks {
+            continue;
+        }
+        let k = if lay.cost_select(&one, r, 3) <= LIMIT { 3 } else if lay.cost_select(&one, r, 1) <= LIMIT { 1 } else { usize::MAX };
+        if k == usize::MAX {
+            out.stat("longsb.plan.too_long_a_scan_for_the_model.select");
+            continue;
+        }
+        if ci >= 8 {
+            n_keep += 1;
+        }
+        if let Some((start, idx, off)) = one.long_at(r) {
+            if r < m {
+                out.stat("longsb.asked.ones.in_long_superblock");
+                if off != 0 && start != 0 {
+                    out.stat("longsb.asked.ones.long_not_at_0_offset_nonzero");
+                }
+                if off != 0 && idx != 0 {
+                    out.stat("longsb.asked.ones.second_or_later_long_offset_nonzero");
+                }
+            }
+        }
+        plan.ranks.push((r, k));
+    }
+
+    // select_zero arguments: the extremes, and the unset bits next to wished values (the run search calls
+    // select_iter on `high` around them)
+    let mut cands: Vec<usize> = extremes(z);
+    if !multiset {
+        for r in wish.ranks.iter().cloned() {
+            if r < m {
+                let rz = vals[r] - r;
+                cands.push(rz);
+                cands.push(rz.wrapping_sub(1));
+            }
+        }
+    } else {
+        cands.push(2);
+        cands.push(z / 2);
+    }
+    let mut seen: BTreeSet<usize> = BTreeSet::new();
+    let mut n_keep = 0usize;
+    for (ci, r) in cands.iter().cloned().enumerate() {
+        if !seen.insert(r) {
+            continue;
+        }
+        if ci >= 8 && n_keep >= wish.cap_zranks {
+            continue;
+        }
+        if !multiset && lay.cost_sel0(r) > 3 * LIMIT {
+            out.stat("longsb.plan.too_long_a_scan_for_the_model.select_zero");
+            continue;
+        }
+        if ci >= 8 {
+            n_keep += 1;
+        }
+        plan.zranks.push((r, 1));
+    }
+    plan
+}
+
+// ranks at many offsets of the superblock that starts at rank `first` (offset 0 is answered from the sample alone)
+fn offsets_in_superblock(first: usize, count: usize) -> Vec<usize> {
+    let mut v: Vec<usize> = Vec::new();
+    for off in [1usize, 2, 63, 64, 65, 127, 128, 500, 1000, 1500, 2000, 2500, 3000, 3500, 4000, 4094, 4095] {
+        if off < count {
+            v.push(first + off);
+        }
+    }
+    if count > 1 {
+        v.push(first + count - 1);
+    }
+    v.push(first);
+    v
+}
+
+fn emit_long(out: &mut Out, rng: &mut Rng, tag: &str, route: u64, n: usize, runs: Runs, want_w: usize, wish: Wish) {
+    let vals = expand_runs(&runs);
+    let multiset = route == 1 || route == 3;
+    let tag2 = tag.to_string();
+    let vals2 = vals.clone();
+    let planner = move |ser: &[u64], w: usize, out: &mut Out| -> Plan {
+        if w != want_w {
+            out.stat("longsb.width_off_target");
+        }
+        // try_from_iter sizes the universe to the last value + 1
+        let universe = if route == 3 { vals2.last().map(|x| x + 1).unwrap_or(0) } else { n };
+        make_plan(&vals2, universe, multiset, &wish, ser, w, out, &tag2)
+    };
+    emit_full(out, &format!("long_superblocks.{}", tag), route, n, &vals, Some(&runs), Some(&planner), &LIGHT, rng);
+    out.stat("longsb.cases");
+}
+
+// sets (C02). tier: 0 = the cheapest case only (secondary build of the quick tier), 1 = quick tier on the primary
+// build, 2 = thorough tier / after a change in the anchor files
+fn long_sets(rng: &mut Rng, out: &mut Out, tier: u32) {
+    let j = rng.below(3) as usize; // small variation between random streams
+    // --- ones of high (select, select_iter, select_zero of the vector)
+    {
+        // the last, partial superblock is long and follows ten short ones: width 4, 86000 buckets, high.len() = 129000
+        let (w, d, t, nb) = (4usize, 40970 + j, 2030 - j, 86000usize);
+        let n = nb << w;
+        let step = (n - 1 - (d + 16)) / (t - 1);
+        let runs: Runs = vec![(0, d, 1), (d + 16, t - 1, step), (n - 1, 1, 0)];
+        let mut ranks = offsets_in_superblock(40960, d + t - 40960);
+        ranks.extend([d - 1, d, d + 1, 1, 4095, 4096, 20000]);
+        let buckets = vec![(d + 16) >> w, ((d + 16 + 700 * step) >> w) + 1, nb - 1];
+        emit_long(out, rng, "set.ones.long_after_short", 0, n, runs, w, Wish { ranks, buckets, cap_idx: 24, cap_ranks: 30, cap_zranks: 6 });
+    }
+    if tier >= 1 {
+        // the first superblock is long and starts at position 5 + j: 4096 values 19.4 buckets apart, then a dense run
+        let (w, nb) = (4usize, 86000usize);
+        let n = nb << w;
+        let first = (5 + j) << w;
+        let dense_start = first + 4096 * 311;
+        let d = 43000 - 4096 - 30;
+        let tail_step = (n - 1 - (dense_start + d + 100)) / 30;
+        let runs: Runs = vec![(first, 4096, 311), (dense_start, d, 1), (dense_start + d + 100, 29, tail_step), (n - 1, 1, 0)];
+        let mut ranks = offsets_in_superblock(0, 4096);
+        ranks.extend([4096, 4097, 8191, 8192, 20000, 43000 - 31, 43000 - 2]);
+        let buckets = vec![5 + j, 6 + j, 40000, dense_start >> w];
+        emit_long(out, rng, "set.ones.first_long_not_at_0", 0, n, runs, w, Wish { ranks, buckets, cap_idx: 24, cap_ranks: 30, cap_zranks: 6 });
+
+        // 31 short superblocks (a dense run), then a full long one (31 buckets between the values) and a second,
+        // partial long one up to the end: width 4, high.len() between 2^18 and 2^19 (threshold 19^4)
+        let (w, d, t, nb) = (4usize, 31 * 4096usize, 600usize, 264700usize);
+        let n = nb << w;
+        let s0 = ((d >> w) + 1) << w;
+        let s1 = s0 + 4096 * 496;
+        let step = (n - 1 - s1) / (t - 1);
+        let runs: Runs = vec![(0, d, 1), (s0 + (j << 1), 4096, 496), (s1, t - 1, step), (n - 1, 1, 0)];
+        let mut ranks = offsets_in_superblock(d + 4096, t);
+        ranks.extend(offsets_in_superblock(d, 4096));
+        ranks.extend([d - 1, 1, 4095, 4096, 70000]);
+        let buckets = vec![s0 >> w, (s1 >> w) + 1];
+        emit_long(out, rng, "set.ones.two_long_in_a_row", 0, n, runs, w, Wish { ranks, buckets, cap_idx: 14, cap_ranks: 40, cap_zranks: 6 });
+    }
+    // --- zeros of high (lower_bound / upper_bound of get, rank, predecessor, successor)
+    if tier >= 1 {
+        // width 5: a dense run of 102360 values inside buckets 4097..8191 makes the second superblock of zeros long
+        // (threshold 18^4); the first one (almost empty buckets) and the later ones are short
+        let (w, nb) = (5usize, 113500usize);
+        let n = nb << w;
+        let head = 40usize;
+        let d = 25 * 4096 - head;
+        let ds = 4097 << w;
+        let ts = ds + d + 40;
+        let tail_step = (n - 1 - ts) / 50;
+        let runs: Runs = vec![(3 + j, head, 100 << w), (ds, d, 1), (ts, 49, tail_step), (n - 1, 1, 0)];
+        let ranks = vec![head, head + 1, head + 5000, head + d - 1, head + d, 25 * 4096 + 10];
+        let last_dense = (ds + d - 1) >> w;
+        let buckets = vec![4097, 4098, 4160, 4161, 5000, 5096, 6000, 6500, 7000, last_dense, last_dense + 1, last_dense + 2, 8000, 8190, 8191, 8192, 4096, 4095, 100];
+        emit_long(out, rng, "set.zeros.long_after_short", 0, n, runs, w, Wish { ranks, buckets, cap_idx: 26, cap_ranks: 8, cap_zranks: 4 });
+
+        // the same run from value 0: the first superblock of zeros is long and starts at position 32
+        let d = 25 * 4096;
+        let ts = d + 40 + j;
+        let tail_step = (n - 1 - ts) / 50;
+        let runs: Runs = vec![(0, d, 1), (ts, 49, tail_step), (n - 1, 1, 0)];
+        let ranks = vec![1, 31, 32, 5000, d - 1, d, d + 10];
+        let last_dense = (d - 1) >> w;
+        let buckets = vec![1, 2, 3, 64, 65, 1000, 2000, 3000, last_dense, last_dense + 1, last_dense + 2, 4000, 4094, 4095, 4096, 4097];
+        emit_long(out, rng, "set.zeros.first_long_not_at_0", 0, n, runs, w, Wish { ranks, buckets, cap_idx: 26, cap_ranks: 8, cap_zranks: 4 });
+    }
+    if tier >= 2 {
+        // two long superblocks of zeros in a row (threshold 19^4): two dense runs of 126956 values in buckets
+        // 4097..8191 and 8193..12287, width 5, high.len() = 518002
+        let (w, nb) = (5usize, 264000usize);
+        let n = nb << w;
+        let head = 40usize;
+        let d = (62 * 4096 - head) / 2;
+        let (ds1, ds2) = (4097usize << w, 8193usize << w);
+        let ts = ds2 + d + 40;
+        let tail_step = (n - 1 - ts) / 50;
+        let runs: Runs = vec![(3 + j, head, 100 << w), (ds1, d, 1), (ds2, d, 1), (ts, 49, tail_step), (n - 1, 1, 0)];
+        let ranks = vec![head, head + d - 1, head + d, head + 2 * d - 1, head + 2 * d];
+        let (l1, l2) = ((ds1 + d - 1) >> w, (ds2 + d - 1) >> w);
+        let buckets = vec![8193, 8194, 8256, 8257, 9000, 10000, 11000, l2, l2 + 1, 12287, 12288, 4097, 4098, 5000, 6000, l1, l1 + 1, 8191, 8192];
+        emit_long(out, rng, "set.zeros.two_long_in_a_row", 0, n, runs, w, Wish { ranks, buckets, cap_idx: 26, cap_ranks: 8, cap_zranks: 4 });
+    }
+}
+
+// multisets (C15); same tiers
+fn long_multisets(rng: &mut Rng, out: &mut Out, tier: u32) {
+    let j = rng.below(3) as usize;
+    // --- zeros of high
+    {
+        // overfull: 84000 values below 64 (32 buckets); the only superblock of zeros is long and starts at 300 + j
+        let n = 64usize;
+        let a = 300 + j;
+        let big = 84000 - a - 8;
+        let runs: Runs = vec![(0, a, 0), (3, 1, 0), (7, 2, 0), (20, big, 0), (40, 1, 0), (41, 1, 0), (55, 1, 0), (62, 1, 0), (63, 1, 0)];
+        let ranks = vec![1, a - 1, a, a + 3, a + 4, a + 5000, a + 3 + big, a + 4 + big, 83999];
+        let buckets: Vec<usize> = (0..32).collect();
+        emit_long(out, rng, "multiset.zeros.first_long_not_at_0", 1, n, runs.clone(), 1, Wish { ranks: ranks.clone(), buckets: buckets.clone(), cap_idx: 44, cap_ranks: 12, cap_zranks: 2 });
+        if tier >= 1 {
+            emit_long(out, rng, "multiset.zeros.first_long_not_at_0.try_from_iter", 3, 0, runs, 1, Wish { ranks, buckets, cap_idx: 30, cap_ranks: 8, cap_zranks: 2 });
+        }
+    }
+    if tier >= 1 {
+        // overfull, 4150 buckets: 200 values in the first 4096 buckets (short superblock), 83797 copies of one value
+        // in bucket 4100 (the second, partial superblock of zeros is long)
+        let n = 8300usize;
+        let runs: Runs = vec![(1 + j, 200, 40), (8200, 84000 - 203, 0), (8250, 2, 0), (8299, 1, 0)];
+        let ranks = vec![0, 199, 200, 201, 50000, 84000 - 4, 84000 - 3, 83999];
+        let buckets: Vec<usize> = vec![4097, 4098, 4099, 4100, 4101, 4110, 4124, 4125, 4126, 4140, 4148, 4149, 4096, 4095, 20, 2000];
+        emit_long(out, rng, "multiset.zeros.long_after_short", 1, n, runs, 1, Wish { ranks, buckets, cap_idx: 40, cap_ranks: 10, cap_zranks: 2 });
+
+        // two long superblocks of zeros (threshold 18^4): 101000 copies of 200 and 105200 copies of 8200
+        let runs: Runs = vec![(1, 50, 3), (200, 101000, 0), (300 + j, 100, 70), (8200, 105200, 0), (8250, 2, 0), (8299, 1, 0)];
+        let m = 50 + 101000 + 100 + 105200 + 3;
+        let ranks = vec![0, 49, 50, 51, 50 + 101000 - 1, 50 + 101000, 50 + 101000 + 99, 50 + 101000 + 100, m - 4, m - 3, m - 1];
+        let buckets: Vec<usize> = vec![4097, 4098, 4099, 4100, 4101, 4124, 4125, 4126, 4148, 4149, 1, 2, 50, 99, 100, 101, 150, 2000, 3615, 4000, 4095, 4096];
+        emit_long(out, rng, "multiset.zeros.two_long_in_a_row", 1, n, runs, 1, Wish { ranks, buckets, cap_idx: 40, cap_ranks: 12, cap_zranks: 2 });
+    }
+    // --- ones of high
+    {
+        // 40970 copies of one value (ten short superblocks), then 1030 values 81 buckets apart: the last, partial
+        // superblock is long. Width 1, 84000 buckets, high.len() = 126000
+        let n = 168000usize;
+        let runs: Runs = vec![(5 + j, 40970, 0), (100, 1029, 163), (n - 1, 1, 0)];
+        let mut ranks = offsets_in_superblock(40960, 1040);
+        ranks.extend([40969, 40970, 40971, 1, 4095, 4096, 20000]);
+        let buckets = vec![50, 51, 40000, 83999];
+        emit_long(out, rng, "multiset.ones.long_after_short", 1, n, runs, 1, Wish { ranks, buckets, cap_idx: 24, cap_ranks: 30, cap_zranks: 4 });
+    }
+    if tier >= 1 {
+        // the first superblock is long and starts at position 5: 4096 values 19.5 buckets apart, then 37874 copies
+        let n = 168000usize;
+        let first = 10 + 2 * j;
+        let ds = first + 4096 * 39;
+        let runs: Runs = vec![(first, 4096, 39), (ds, 42000 - 4096 - 30, 0), (ds + 46, 29, 274), (n - 1, 1, 0)];
+        let mut ranks = offsets_in_superblock(0, 4096);
+        ranks.extend([4096, 4097, 20000, 42000 - 31, 42000 - 30, 42000 - 2]);
+        let buckets = vec![5 + j, 6 + j, 40000, ds >> 1, (ds >> 1) + 1];
+        emit_long(out, rng, "multiset.ones.first_long_not_at_0", 1, n, runs, 1, Wish { ranks, buckets, cap_idx: 24, cap_ranks: 30, cap_zranks: 4 });
+    }
+    if tier >= 2 {
+        // (the quick tier has two long superblocks in a row on the zeros side, and C02 has them on the ones side)
+        // 126976 copies (31 short superblocks), a full long superblock (31 buckets between the values), a partial
+        // long one up to the end (threshold 19^4); width 1, 256800 buckets
+        // (the copies sit in two buckets 4200 apart so that no superblock of ZEROS becomes long as well)
+        let (d, t, nb) = (31 * 4096usize, 600usize, 261000usize);
+        let n = nb << 1;
+        let s0 = 8420 + 2 * j;
+        let s1 = s0 + 4096 * 62;
+        let step = (n - 1 - s1) / (t - 1);
+        let runs: Runs = vec![(10, d / 2, 0), (8410, d / 2, 0), (s0, 4096, 62), (s1, t - 1, step), (n - 1, 1, 0)];
+        let mut ranks = offsets_in_superblock(d + 4096, t);
+        ranks.extend(offsets_in_superblock(d, 4096));
+        ranks.extend([d - 1, 1, 4095, 4096, 70000]);
+        let buckets = vec![s0 >> 1, (s1 >> 1) + 1];
+        emit_long(out, rng, "multiset.ones.two_long_in_a_row", 1, n, runs, 1, Wish { ranks, buckets, cap_idx: 14, cap_ranks: 40, cap_zranks: 4 });
+    }
+}
+
 pub fn run(rng: &mut Rng, out: &mut Out, thorough: bool, multiset: bool, variant: &str) {
     THOROUGH.store(thorough, std::sync::atomic::Ordering::Relaxed);
-    PRIMARY.store(variant == "native_dev" || (thorough && variant == "native_release"), std::sync::atomic::Ordering::Relaxed);
+    let primary = variant == "native_dev" || (thorough && variant == "native_release");
+    PRIMARY.store(primary, std::sync::atomic::Ordering::Relaxed);
+    // long superblocks: first, so that these long-running cases are spread over different shards
+    let heavy = thorough || std::env::var("VERIF_ESCALATED").is_ok();
+    let tier = if heavy && primary { 2 } else if primary { 1 } else { 0 };
     if multiset {
+        long_multisets(rng, out, tier);
         run_multisets(rng, out, thorough);
     } else {
+        long_sets(rng, out, tier);
         run_sets(rng, out, thorough);
     }
 }
